@@ -38,6 +38,9 @@ try:
     report["check_exit"] = c.returncode
     report["check_output"] = [l[:400] for l in lines][-12:]
     report["detected"] = c.returncode == 1 and any(l.startswith("VIOLATION") for l in lines)
+    # detected with a concrete failing input (not only through a proof/table/case file that no longer builds)
+    report["detected_with_input"] = c.returncode == 1 and any(
+        l.startswith("VIOLATION") and "no-failing-input-found" not in l for l in lines)
     report["check_cmd"] = f"XSDATA_REPO=<patched worktree> ./check {pid} --tier {tiers}  (from a scratch copy of /verif)"
 finally:
     sh(f"git -C /repo worktree remove --force {wt}")
